@@ -149,6 +149,18 @@ CHECKS += [
      "design_ref": "DESIGN.md 4/C04", "technique": TLA + " (Mods.tla allowed-edit table + examine_brace transcription)",
      "note": "token identity by the independent lexer (C family); sorting options judged as multiset of tokens, duplicate-include removal on the set of headers; the allowed-kinds table is part of the specification"},
 ]
+
+ENGINES += [
+    {"name": "meaning", "path": "spec/Meaning.tla spec/MeaningTrace.tla spec/Mods.tla vlib/checks/c01.py",
+     "serves_properties": ["C01"],
+     "kind_free_text": "TLA+ generators of compilable programs (typed expression neighbourhoods postfix x binary x prefix x ternary; statement trees of Mods.tla incl. the sensitivity set of the dangling-else clause) and the history Compile; Format; Compile with its invariant; gcc / g++ / clang / javac observe the object code before and after formatting under core mixes, every option singly at its enumerated and boundary values, and seeded multi-option draws; MeaningTrace judges every history"},
+]
+CHECKS += [
+    {"id": "C01", "engine": "meaning", "level": "exploration",
+     "text": "1267 typed expression statements (all postfix x binary x prefix x ternary combinations) and up to 600 (6000 thorough) statement trees are generated by TLC and, with hand-written compilable C / C++ (thorough: ObjC, Java) programs, formatted under 11 core mixes (all sp_ remove / force, all nl_ remove / force, brace add / remove, width, two mod_ mixes), every option singly at its enumerated / boundary values (260 seeded in quick, all in thorough) and seeded multi-option draws; input and output are compiled (gcc/g++ -S -O1, clang, javac -g:none) and the histories judged by MeaningTrace (formatter accepts, output compiles, same object code). A violation is reported with the configuration minimised to the lines that still produce it.",
+     "design_ref": "DESIGN.md 4/C01", "technique": TLA + " (Meaning.tla / Mods.tla generators, compiler as observer)",
+     "note": "sampling of an infinite space with an external oracle: TLA+ contributes the generators and the acceptance; meaning = object code of the installed compilers"},
+]
 _PENDING = "check not built yet in this commit (specification module planned in DESIGN.md 3.1); will be claimed when its check is quiet on the unchanged tree"
 NOT_APPLICABLE = [{"property_id": "C%02d" % i, "reason": _PENDING} for i in range(1, 21) if "C%02d" % i not in {c["id"] for c in CHECKS}]
 NOTES = "All checks: bin/check <ID> --tier quick|thorough; VERIF_SEED is honoured; evidence in /verif/evidence/<ID>.json; known findings in /verif/known_findings.json."
